@@ -112,12 +112,12 @@ def splitYield (cfg : SplitCfg) (st : SplitState) (t : Tok) : SplitState :=
 def splitAdvance (cfg : SplitCfg) (st : SplitState) (t : Tok) : Except PyErr SplitState :=
   let r := changeSplitLevel cfg st.flags t.tt t.val
   let st := { st with level := st.level + r.fst, flags := r.snd, cur := st.cur ++ [t] }
-  -- `(self.level <= 0 and ttype is T.Punctuation and value == ';') or (ttype is T.Keyword and value.split()[0] == 'GO')`
+  -- `(self.level <= 0 and ttype is T.Punctuation and value == ';') or (ttype is T.Keyword and value.split()[0].upper() == 'GO')`
   if st.level ≤ 0 && t.tt == T.Punctuation && t.val == txt ";" then .ok { st with consumeWs := true }
   else if t.tt == T.Keyword then
     match splitFirst cfg.isSpace t.val with
     | none => .error .indexError
-    | some w => .ok (if w == txt "GO" then { st with consumeWs := true } else st)
+    | some w => .ok (if cfg.upper w == txt "GO" then { st with consumeWs := true } else st)
   else .ok st
 
 /-- one iteration of the loop in `process` -/
